@@ -220,7 +220,7 @@ pub fn cells(tier: Tier) -> Vec<CellPlan> {
         c.ops_per_round = 2;
         c.rounds = 2;
         c.tick_choice = false;
-        c.env = Env { hold_acks: false, hold_updates: 0, mutations: MutMenu::Full, leftover_choice: true, lossy: false };
+        c.env = Env { hold_acks: true, hold_updates: 0, mutations: MutMenu::Full, leftover_choice: true, lossy: false };
         v.push(plan(c, 2, 0.5));
     }
 
